@@ -19,7 +19,6 @@ open Emboss.Tok
 #print axioms C10_longest_match_documented
 #print axioms C10_word_run
 #print axioms C10_word_classes
-#print axioms C10_number_classes_partial
+#print axioms C10_number_classes
 #print axioms C10_word_tokens
 #print axioms C10_word_tokens_are_maximal_runs
-#print axioms C10_number_classes_counterexample
